@@ -39,6 +39,116 @@ class FakeSock:
         pass
 
 
+class ScriptSock:
+    """socket whose recv() follows a script: bytes objects are delivered (never more than asked for), "t" raises
+    socket.timeout; when the script is used up the link is at end of file"""
+
+    def __init__(self, script):
+        self.script = list(script)
+        self.used = 0          # script events consumed
+        self.taken = 0         # bytes handed out
+        self.out = []
+
+    def send(self, data):
+        self.out.append(bytes(data))
+        return len(data)
+
+    def recv(self, n):
+        import socket as _s
+
+        if not self.script:
+            return b""
+        ev = self.script[0]
+        if ev == "t":
+            self.script.pop(0)
+            self.used += 1
+            raise _s.timeout()
+        r, rest = ev[:n], ev[n:]
+        if rest:
+            self.script[0] = rest
+        else:
+            self.script.pop(0)
+        self.used += 1
+        self.taken += len(r)
+        return r
+
+    def settimeout(self, t):
+        pass
+
+    def close(self):
+        pass
+
+
+def gen_read_case(rng):
+    n = rng.choice([1, 4, 8, 16, rng.randrange(1, 64)])
+    need, check = rng.random() < 0.7, rng.random() < 0.7
+    left, script = n, []
+    while left > 0:
+        if rng.random() < 0.35:
+            script.append("t")
+        else:
+            k = rng.randrange(1, left + 1)
+            script.append(rng.randbytes(k))
+            left -= k
+        if rng.random() < 0.05:
+            break                       # stream ends early: EOF
+    if rng.random() < 0.3:
+        script.insert(0, "t")
+    return n, need, check, script
+
+
+def real_read_all(n, need, check, script):
+    from paramiko.packet import NeedRekeyException, Packetizer
+
+    sock = ScriptSock(script)
+    pk = Packetizer(sock)
+    pk._Packetizer__need_rekey = need
+    try:
+        data = pk.read_all(n, check_rekey=check)
+    except NeedRekeyException:
+        return "rekey %d" % sock.taken, None
+    except EOFError:
+        return "eof", None
+    return "ok %d" % sock.used, data
+
+
+def fragmented_read_message(ctx, rng):
+    """send-side trigger pending, inbound packets arriving in fragments with idle gaps: what read_message
+    delivers (retrying on NeedRekeyException like the run loop does) must be exactly what was sent"""
+    from paramiko.packet import NeedRekeyException
+
+    payloads = [rng.randbytes(rng.randrange(0, 60)) for _ in range(rng.randrange(1, 4))]
+    script = []
+    for pl in payloads:
+        pkt = L.plain_packet(94, pl)
+        cut1 = rng.randrange(1, 8)                 # less than one cipher block of the header
+        cut2 = rng.randrange(cut1, len(pkt))
+        script += ["t"] * rng.randrange(0, 2) + [pkt[:cut1], "t"] + ([pkt[cut1:cut2], "t"] if cut2 > cut1 else []) \
+            + [pkt[cut2:]]
+    sock = ScriptSock(script)
+    pk = scaled_class(1, 10 ** 9, 10 ** 9, 10 ** 9)(sock)
+    pk._initial_kex_done = True
+    pk.send_message(L.msg(2, ("raw", b"trigger")))            # REKEY_PACKETS = 1: the request is now pending
+    case = {"payloads": [p.hex() for p in payloads], "script": [e if e == "t" else len(e) for e in script]}
+    if not pk.need_rekey():
+        ctx.fail("send-side-trigger-missed", case, "need_rekey() false after REKEY_PACKETS packets")
+        return
+    got, rekeys = [], 0
+    try:
+        while len(got) < len(payloads) and rekeys < 50:
+            try:
+                t, m = pk.read_message()
+                got.append((t, m.asbytes()))
+            except NeedRekeyException:
+                rekeys += 1
+    except Exception as e:
+        ctx.fail("bytes-lost-on-rekey-request:" + exc_site(e), case, "after %d NeedRekeyException: %r" % (rekeys, e))
+        return
+    ctx.dist("fragmented:needrekey-exceptions:%d" % min(rekeys, 3))
+    if got != [(94, p) for p in payloads]:
+        ctx.fail("bytes-lost-on-rekey-request:wrong-data", case, "decoded %r" % ([(t, p.hex()) for t, p in got],))
+
+
 def scaled_class(rp, rb, op, ob):
     from paramiko.packet import Packetizer
 
@@ -331,6 +441,31 @@ def run(ctx):
             if model != (flags, counters):
                 ctx.disagree("packetizer rekey bookkeeping", {"request": req}, [model[0], model[1]], [flags, counters])
 
+    # ---- read_all: fragments, timeouts and the NeedRekeyException
+    rreqs, robs = [], []
+    for _ in range(4000 if ctx.thorough else 1200):
+        n, need, check, script = gen_read_case(rng)
+        want = b"".join(e for e in script if e != "t")
+        out, data = real_read_all(n, need, check, script)
+        toks = " ".join("t" if e == "t" else "d%d" % len(e) for e in script)
+        rreqs.append("readall %d %d %d %s" % (need, check, n, toks))
+        robs.append((out, {"n": n, "need": need, "check": check, "script": toks}))
+        ctx.case(("readall", n, need, check, toks), "t" in script)
+        ctx.dist("readall:" + out.split(" ")[0])
+        if out.startswith("rekey") and out != "rekey 0":
+            ctx.fail("bytes-lost-on-rekey-request:read_all", robs[-1][1], out)
+        if data is not None and data != want[:n]:
+            ctx.fail("read_all-returns-wrong-bytes", robs[-1][1], data.hex())
+    rrep = ctx.driver("C10", rreqs)
+    if rrep is not None:
+        for rq, rp_, (out, case) in zip(rreqs, rrep, robs):
+            model = "eof" if rp_.startswith("eof") else rp_
+            if model != out:
+                ctx.disagree("read_all", dict(case, request=rq), model, out)
+    for _ in range(300 if ctx.thorough else 100):
+        ctx.case(("fragmented", _), True)
+        fragmented_read_message(ctx, rng)
+
     patterns = ["send-heavy", "receive-heavy", "interleaved", "idle", "one-sided-thresholds"]
     for p in patterns * (2 if ctx.thorough else 1):
         ctx.case(("e2e", p), p != "idle")
@@ -351,7 +486,8 @@ META = {
               "the packet allowance and within the byte allowance; the loop top turns a pending request into a "
               "KEXINIT and in_kex is not cleared while a request is pending. The model is tied to Packetizer by "
               "per-operation differential runs on a scaled subclass (flags, exception, all private counters)."),
-    "note": ("Trusted: Lean kernel + 3 axioms; the harness. The transport-level rules (loop top, in_kex) are modelled "
+    "note": ("Also proved and tied (read_all differential, fragmented read_message oracle): NeedRekeyException leaves the "
+             "read loop only with no byte of the packet consumed. Trusted: Lean kernel + 3 axioms; the harness. The transport-level rules (loop top, in_kex) are modelled "
              "from Transport.run/_activate_outbound/_parse_newkeys and exercised only end to end (oracle), not by "
              "per-step correspondence. 'Traffic continues intact' across the exchange is an end-to-end oracle here "
              "and C11's subject; keepalive timing (NeedRekeyException on an idle read) is outside the model."),
